@@ -22,7 +22,7 @@ ASSUMPTIONS = ['secondary/supplementary alignments are outside the claim (not ge
                'mate number is only compared for pairs whose mates are both mapped to the same contig (the third-party mate iterator de-pairs the others)',
                'worker schedules are sampled: observed completion orders are counted, not enumerated']
 MIN_NONTRIVIAL = {'quick': 40, 'thorough': 1200}
-REQUIRED_MONITORS = ['history:same_path_reused', 'lib:secondary_or_supplementary', 'run:single_process', 'run:multiprocess', 'records:compared', 'jobs:observed', 'run:no_rejects', 'layout:large_after_small',
+REQUIRED_MONITORS = ['history:same_path_reused', 'eject:interval_shrunk', 'lib:dense', 'paths:rel', 'paths:dotrel', 'lib:secondary_or_supplementary', 'run:single_process', 'run:multiprocess', 'records:compared', 'jobs:observed', 'run:no_rejects', 'layout:large_after_small',
                      'layout:lone_small_contig', 'lib:unmapped_pairs', 'lib:half_mapped', 'lib:orphans']
 SHARD_TIMEOUT = {'quick': 900, 'thorough': 7200}
 
@@ -55,28 +55,40 @@ def contig_layout(r):
     return order, style
 
 
+DENSE = [False]
+
+
 def build_library(r, case_id, method):
     contigs, style = contig_layout(r)
     with_reads = [c for c in contigs if r.random() < 0.8] or [contigs[0]]
     gen = F.Genome(r, contigs)
     recs, truths = [], {}
     rid = 1
+    # a quarter of the libraries are dense: many cut sites on one contig, several UMIs per cell, site and strand with copies of very different
+    # length - while one molecule of a site is old enough to leave the molecule buffer, its neighbours are not
+    dense = r.random() < 0.25
+    DENSE[0] = dense
     for name, ln in with_reads:
         nsite = r.randint(1, 4)
+        is_dense_contig = dense and (name, ln) == with_reads[0] and ln > 4000
+        if is_dense_contig:
+            nsite = r.randint(30, 90)
         for _ in range(nsite):
-            pos = r.randrange(450, ln - 450)
+            pos = r.randrange(450, ln - 450) if not is_dense_contig else r.randrange(800, ln - 800)
             if method == 'nla':
                 if 'CATG' in gen.get(name)[pos - 8:pos + 12]:
                     continue
                 gen.plant(name, pos)
+            site_cell, site_strand = r.randint(1, 3), r.random() < 0.5
             for _ in range(r.randint(1, 4)):
                 umi = F.rand_dna(r, 3)
-                cell = r.randint(1, 3)
-                reverse = r.random() < 0.5
+                cell = r.randint(1, 3) if not is_dense_contig else site_cell
+                reverse = (r.random() < 0.5) if not is_dense_contig else site_strand
                 for _ in range(r.randint(1, 3)):
                     broken = method == 'nla' and r.random() < 0.12
                     fr, tr = F.make_fragment(gen, r, rid, case_id, 'nla' if method == 'qflag' else method, cell, name, pos, reverse, umi,
-                                             r.randint(60, 300), clip=r.choice([0, 0, 0, 2]), motif_ok=not broken,
+                                             r.randint(60, 300) if not is_dense_contig else r.choice([60, 90, 150, 300, 500, 700]),
+                                             clip=r.choice([0, 0, 0, 2]), motif_ok=not broken,
                                              single_end=r.random() < 0.1, dup_flag=r.random() < 0.1)
                     if fr is None:
                         continue
@@ -170,6 +182,7 @@ def run_case(case):
     r = rng(case['seed'], 'C05', case['i'])
     method = r.choice(['nla', 'nla', 'chic', 'qflag'])
     gen, recs, truths, style, with_reads = build_library(r, case['i'] + 1, method)
+    acc.count('lib:dense', 1 if DENSE[0] else 0)
     if not recs:
         return acc
     multi = r.random() < 0.6
@@ -213,14 +226,32 @@ def run_case(case):
         bam = write_bam(os.path.join(dd, 'in.bam'), gen.refs, recs)
         out = os.path.join(dd, 'out', 'tagged.bam')
         os.makedirs(os.path.dirname(out))
-        cmd = [bam, '-o', out, '-method', method, '-temp_folder', dd]
+        # the form of the paths is not under the tool's control: absolute, relative to the working directory, with a leading './'
+        path_form = r.choice(['abs', 'abs', 'rel', 'dotrel'])
+        acc.count('paths:' + path_form)
+        if path_form == 'abs':
+            cmd = [bam, '-o', out, '-method', method, '-temp_folder', dd]
+        elif path_form == 'rel':
+            cmd = ['in.bam', '-o', os.path.join('out', 'tagged.bam'), '-method', method, '-temp_folder', 'tmp_rel']
+        else:
+            cmd = ['./in.bam', '-o', './out/tagged.bam', '-method', method, '-temp_folder', './tmp_rel']
+        cfg['path_form'] = path_form
         if multi:
             cmd += ['--multiprocess', '-tagthreads', str(threads)]
         if no_rejects:
             cmd.append('--no_rejects')
             acc.count('run:no_rejects')
         events = os.path.join(dd, 'events.jsonl')
-        exc, txt = T.run_cli(cmd, event_file=events if multi else None, delay_seed=delay_seed)
+        cwd0 = os.getcwd()
+        os.makedirs(os.path.join(dd, 'tmp_rel'), exist_ok=True)
+        os.chdir(dd)
+        try:
+            eject_every = r.choice([None, 0, 1, 3, 10, 50])
+            cfg['molecule_buffer_checked_every'] = eject_every if eject_every is not None else 'default (10000)'
+            acc.count('eject:interval_shrunk', 0 if eject_every is None else 1)
+            exc, txt = T.run_cli(cmd, event_file=events if multi else None, delay_seed=delay_seed, eject_every=eject_every)
+        finally:
+            os.chdir(cwd0)
         acc.evals += 1
         acc.count('run:multiprocess' if multi else 'run:single_process')
         wit = {'config': cfg, 'library': {'records': len(recs), 'kinds': dict(kinds)},
